@@ -249,7 +249,7 @@ func init() {
 		Floor: 50,
 		Bound: func(tier string) string {
 			k, e := coreK(tier)
-			return fmt.Sprintf("k=%d focus units, %d elements per slice, all visit orders, both modes; catchers at struct fields, slice elements, behind pointers, in struct-in-slice", k, e)
+			return thoroughPrefix(tier) + fmt.Sprintf("k=%d focus units, %d elements per slice, all visit orders, both modes; catchers at struct fields, slice elements, behind pointers, in struct-in-slice", k, e)
 		},
 		Assumptions: []string{
 			"own-node value oracle uses the reference model's node-local rule; the non-interference oracle is purely differential (no model)",
